@@ -347,13 +347,26 @@ def parallel_replay(
     if not cases:
         return []
     procs = min(procs or NCPU, len(cases))
+    # the cases of one worker share a process and hence every module-level cache of the code under test: they are handed out in
+    # a seeded SHUFFLED order, so that neighbouring calls differ in many parameters at once (incidental history coverage);
+    # results are returned in the original order
+    import random
+
+    order = list(range(len(cases)))
+    random.Random(seed_from_env() * 7919 + len(cases)).shuffle(order)
+    shuffled = [cases[i] for i in order]
     if procs <= 1:
         _worker_init(fn_module, fn_name, sync_dask)
-        return [_worker_call(c) for c in cases]
-    ctx = mp.get_context("spawn")
-    cs = chunksize or max(1, len(cases) // (procs * 8))
-    with ctx.Pool(procs, initializer=_worker_init, initargs=(fn_module, fn_name, sync_dask)) as pool:
-        return pool.map(_worker_call, cases, chunksize=cs)
+        res = [_worker_call(c) for c in shuffled]
+    else:
+        ctx = mp.get_context("spawn")
+        cs = chunksize or max(1, len(cases) // (procs * 8))
+        with ctx.Pool(procs, initializer=_worker_init, initargs=(fn_module, fn_name, sync_dask)) as pool:
+            res = pool.map(_worker_call, shuffled, chunksize=cs)
+    out: list[Any] = [None] * len(cases)
+    for i, r in zip(order, res):
+        out[i] = r
+    return out
 
 
 # --------------------------------------------------------------------- findings
